@@ -110,7 +110,7 @@ def run(ctx):
     # synthetic rules of the class wfTop under a reused rule name: the theorems are about the class, not the shipped table
     sreqs, smetas = [], []
     quick = ctx.tier == "quick"
-    for i in range(40 if quick else 500):
+    for i in range(40 if quick else 150 if getattr(ctx, "escalated", False) else 500):
         sj = synth.gen_spec(ctx.rng)
         s = lang.parse(sj)
         flat = lang.names(s)
